@@ -749,10 +749,21 @@ class Hist:
             this_conn, other_conn = list(b.inputs), list(o.inputs)
         elif entry == 'extend_circuit':
             right = rng.random() < 0.5
+            ext_mode = weighted_choice(rng, [('defaults', 4), ('explicit-defaults', 2), ('explicit-empty', 2), ('explicit-some', 3)])
             if right:
                 this_conn, other_conn = list(b.inputs), list(o.outputs)
             else:
                 this_conn, other_conn = list(b.outputs), list(o.inputs)
+            if ext_mode == 'explicit-empty':
+                this_conn, other_conn = [], []
+            elif ext_mode == 'explicit-some':
+                if right:
+                    k = rng.randint(0, min(len(b.inputs), len(o_labels), 3))
+                    this_conn, other_conn = rng.sample(b.inputs, k), rng.sample(o_labels, k)
+                else:
+                    k = rng.randint(0, min(len(o.inputs), 3)) if b_labels else 0
+                    other_conn = rng.sample(o.inputs, k)
+                    this_conn = [rng.choice(b_labels) for _ in range(k)]
         else:
             this_conn, other_conn = [], []
         # naming: make most calls valid by choosing a prefix when labels would collide
@@ -780,11 +791,12 @@ class Hist:
         elif entry == 'connect_inputs':
             fn = lambda: R.connect_inputs(other_real, **kw)
         elif entry == 'extend_circuit':
-            if rng.random() < 0.5:
+            if ext_mode == 'defaults':
                 fn = lambda: R.extend_circuit(other_real, right_connect=right, **kw)
             else:
                 fn = lambda: R.extend_circuit(other_real, this_connectors=this_conn, other_connectors=other_conn,
                                               right_connect=right, **kw)
+                self.res.stats.probes.bump(f'extend_circuit:{ext_mode}')
         else:
             fn = lambda: R.add_circuit(other_real, **kw)
         desc = (f'#{base.sid}.{entry}(other={"#%d" % other_slots[0].sid if other_slots else "fresh"},this={this_conn},'
